@@ -315,9 +315,107 @@ def values_unit(unit):
     return part
 
 
+def extensions_unit(unit):
+    """The diskcache-specific methods of the backend (read, expire, evict,
+    cull, stats, tag index, cache/deque/index, directory) give what the
+    same history gives on a FanoutCache driven directly with the keys the
+    backend derives."""
+    import diskcache as dc
+    _, params = unit
+    part = {'states': 0, 'transitions': 0, 'executions': 0, 'violations': [],
+            'outcomes': {}, 'samples': [], 'caps': [],
+            'label': 'grid/extensions'}
+    root, root2 = run.fresh_dir('de'), run.fresh_dir('df')
+    ENV.reset(run.scratch())
+    dj = make_django(root, params)
+    fc = dc.FanoutCache(root2, shards=params.get('SHARDS', 2))
+    mk = dj.make_key
+    steps = []
+
+    def both(label, f_dj, f_fc):
+        a, b = call(f_dj), call(f_fc)
+        from ..worlds import normalize
+        a, b = normalize(a), normalize(b)
+        part['transitions'] += 1
+        part['executions'] += 1
+        steps.append((label, a, b))
+        if not same(a, b):
+            part['violations'].append({
+                'signature': {'clause': 'extension-differs', 'op': label},
+                'message': 'extension-differs: params %r: after %r, '
+                           'DjangoCache.%s -> %r but the FanoutCache driven '
+                           'with the same keys -> %r'
+                           % (params, [x[0] for x in steps[:-1]], label, a, b),
+                'replay': {'engine': 'GRID', 'module': 'props.c19',
+                           'params': params, 'generic': True}})
+
+    try:
+        big = b'v' * 40000
+        for i in range(6):
+            both('set%d' % i,
+                 lambda: dj.set('k%d' % i, big if i % 2 else i, timeout=5
+                                if i < 3 else None, tag='t%d' % (i % 2)),
+                 lambda: fc.set(mk('k%d' % i), big if i % 2 else i,
+                                expire=5 if i < 3 else None,
+                                tag='t%d' % (i % 2)))
+        both('stats-enable', lambda: dj.stats(enable=True),
+             lambda: fc.stats(enable=True))
+        both('read', lambda: dj.read('k1'), lambda: fc.read(mk('k1')))
+        both('read-missing', lambda: dj.read('zz'),
+             lambda: fc.read(mk('zz')))
+        both('read-version', lambda: dj.read('k1', version=7),
+             lambda: fc.read(mk('k1', version=7)))
+        both('get-hit', lambda: dj.get('k0'), lambda: fc.get(mk('k0')))
+        both('get-miss', lambda: dj.get('nope'), lambda: fc.get(mk('nope')))
+        both('stats', lambda: dj.stats(), lambda: fc.stats())
+        both('create_tag_index', lambda: dj.create_tag_index(),
+             lambda: fc.create_tag_index())
+        both('tag_index', lambda: dj._cache.tag_index, lambda: fc.tag_index)
+        both('evict', lambda: dj.evict('t1'), lambda: fc.evict('t1'))
+        both('drop_tag_index', lambda: dj.drop_tag_index(),
+             lambda: fc.drop_tag_index())
+        ENV.now += 10
+        both('expire', lambda: dj.expire(), lambda: fc.expire())
+        both('len', lambda: len(dj._cache), lambda: len(fc))
+        both('cull', lambda: dj.cull(), lambda: fc.cull())
+        both('stats-reset', lambda: dj.stats(reset=True),
+             lambda: fc.stats(reset=True))
+        both('stats-after', lambda: dj.stats(enable=False),
+             lambda: fc.stats(enable=False))
+        both('keys', lambda: sorted(map(repr, dj._cache)),
+             lambda: sorted(map(repr, fc)))
+        # named sub-objects live below the backend's directory
+        part['transitions'] += 1
+        sub = dj.cache('sub')
+        sub['x'] = 1
+        ok = (dj.directory == root and type(sub) is dc.Cache
+              and sub.directory.startswith(root) and dj.cache('sub') is sub
+              and dj.cache('sub')['x'] == 1
+              and type(dj.deque('dq')) is dc.Deque
+              and type(dj.index('ix')) is dc.Index)
+        if not ok:
+            part['violations'].append({
+                'signature': {'clause': 'extension-differs', 'op': 'cache'},
+                'message': 'extension-differs: DjangoCache.cache/deque/index/'
+                           'directory: directory=%r sub=%r'
+                           % (dj.directory, sub),
+                'replay': {'engine': 'GRID', 'module': 'props.c19',
+                           'params': params, 'generic': True}})
+    finally:
+        dj.close()
+        fc.close()
+        run.drop(root)
+        run.drop(root2)
+    part['states'] = len(steps)
+    part['outcomes']['extensions'] = 1
+    return part
+
+
 def work(unit):
     if unit[0] == 'values':
         return values_unit(unit)
+    if unit[0] == 'extensions':
+        return extensions_unit(unit)
     params, depth, seed, cap, chunk, nchunks = unit
     ab = run.shuffled(alphabet(), seed, 'dj')
     part = seq.bfs(lambda: DjangoWorld(params), ab, depth,
@@ -336,6 +434,7 @@ def main(tier, seed):
         d = depth if tier == 'quick' or i % 4 else 4
         units += [(p, d, seed, cap, ch, 4) for ch in range(4)]
         units.append(('values', p))
+        units.append(('extensions', p))
     units = run.shuffled(units, seed)
     for part in run.pmap(work, units):
         rep.merge(part, part.get('label'))
